@@ -740,12 +740,16 @@ func jpfSort(arguments []interface{}) (interface{}, error) {
 }
 func jpfSortBy(arguments []interface{}) (interface{}, error) {
 	intr := arguments[0].(*treeInterpreter)
-	arr := arguments[1].([]interface{})
+	input := arguments[1].([]interface{})
 	exp := arguments[2].(expRef)
 	node := exp.ref
-	if len(arr) == 0 {
-		return arr, nil
+	if len(input) == 0 {
+		return input, nil
 	}
+	// Sort a copy: the argument may be the caller's document or a literal
+	// held by a compiled expression.
+	arr := make([]interface{}, len(input))
+	copy(arr, input)
 	start, err := intr.Execute(node, arr[0])
 	if err != nil {
 		return nil, err
